@@ -407,7 +407,7 @@ class WireEngine(BaseEngine):
 
     def tiers(self, prop):
         return {'C04': {'quick': 300_000, 'thorough': 15_000_000},
-                'C05': {'quick': 300_000, 'thorough': 12_000_000},
+                'C05': {'quick': 200_000, 'thorough': 8_000_000},
                 'C06': {'quick': 400_000, 'thorough': 20_000_000}}[prop]
 
     # ---------------- generation
